@@ -66,6 +66,9 @@ pub fn gen_c04(o: &mut Out, tier: &str, sd: u64) {
     let mut r = Rng::new(sd, "c04");
     let th = tier == "thorough";
     let widths: Vec<usize> = if th { vec![64, 128, 256] } else { vec![64] };
+    // the verdict does not depend on what was verified before in the same process: accepted proofs of several
+    // widths, each re-verified after rejected (malformed) ones
+    o.op("range.width-sequence", &format!("rseq {} {}", if th { "64,128,256,64" } else { "64,128,64" }, hex(&r.bytes(8))));
     for &w in widths.iter() {
         let lg = (w as f64).log2() as usize;
         for bls in splits(&mut r, w, th) {
@@ -242,6 +245,13 @@ pub fn gen_range_new(o: &mut Out, tier: &str, sd: u64, honest: bool) {
     let mut r = Rng::new(sd, if honest { "c05r" } else { "c20r" });
     let th = tier == "thorough";
     let widths: Vec<usize> = if th { vec![64, 128, 256] } else { vec![64, 128] };
+    if honest {
+        // proofs of different widths built and verified one after the other in one process, with rejected
+        // (malformed) proofs in between
+        for ws in if th { vec!["64,256,128,64,256,64", "256,64,128", "128,128,256,64"] } else { vec!["64,256,128,64"] } {
+            o.op("range.width-sequence", &format!("rseq {} {}", ws, hex(&r.bytes(8))));
+        }
+    }
     for &w in widths.iter() {
         if honest {
             for bls in splits(&mut r, w, th).into_iter().take(if th { 100 } else { 4 }) {
@@ -309,10 +319,6 @@ pub fn gen_range_new(o: &mut Out, tier: &str, sd: u64, honest: bool) {
 pub fn gen_c06_range(o: &mut Out, tier: &str, sd: u64) {
     let mut r = Rng::new(sd, "c06r");
     let th = tier == "thorough";
-    // proofs of different widths built and verified one after the other in one process
-    for ws in if th { vec!["64,256,128,64,256,64", "256,64,128", "128,128,256,64"] } else { vec!["64,256,128,64"] } {
-        o.op("range.width-sequence", &format!("rseq {} {}", ws, hex(&r.bytes(8))));
-    }
     for w in [64usize, 128, 256] {
         let all = splits(&mut r, w, th);
         for bls in all.into_iter().take(if th { 20 } else { 2 }) {
